@@ -30,7 +30,7 @@ MIN_FRACTIONS.update({"class:leap-day": 0.004, "class:year-end": 0.004, "class:s
 
 
 def budget(tier):
-    return dict(examples=300, shards=4) if tier == "quick" else dict(examples=3000, shards=16)
+    return dict(examples=300, shards=4) if tier == "quick" else dict(examples=1500, shards=16)
 
 
 @st.composite
